@@ -406,11 +406,15 @@ def _inline_closure(ctx, roots, view):
         for s in res.callsites(f, view):
             if s.recv not in ("self", "name") or _is_spawned_arg(f, s.call):
                 continue
+            anc = list(ancestors(f, s.call))
+            awaited = bool(anc) and isinstance(anc[0], ast.Await)
             for t in s.targets:
                 if t.name == "__init__" or t.qualname in out:
                     continue
                 if t.parent is not None and t.name in ("_delayed", "_invoke_wrapper"):
                     continue
+                if t.is_async and not awaited:
+                    continue          # calling a coroutine function without awaiting it runs nothing here: the coroutine object is handed on (to create_task ...)
                 # send()/send_events() only enqueue: their bodies are not part of the macrostep
                 work.append(t)
     return out
